@@ -1158,13 +1158,13 @@ fn hyphen<'s>(input: &mut &'s str) -> PResult<Option<BoundSet>, SemverParseError
             }),
             partial => Predicate::Including(partial.into()),
         };
-        let bounds = if let Some(lower) = lower {
-            BoundSet::new(
+        let bounds = match lower {
+            // a wildcard on the lower side is no lower bound at all
+            Some(lower) if lower.major.is_some() => BoundSet::new(
                 Bound::Lower(Predicate::Including(lower.into())),
                 Bound::Upper(upper),
-            )
-        } else {
-            BoundSet::at_most(upper)
+            ),
+            _ => BoundSet::at_most(upper),
         };
         Ok(bounds)
     }
